@@ -282,7 +282,30 @@ func (fg *FG) ghostField(t types.Type, name string) (ghostFieldInfo, bool) {
 }
 
 // refOf returns the Int reference that identifies a pointer or interface value in ghost heaps.
+// interiorRef names the address of an embedded struct / field inside an object: an uninterpreted
+// function of the enclosing object's reference and the path, used as the key of ghost fields that
+// hang on that interior address.
+func (fg *FG) interiorRef(l *Loc) string {
+	fg.declareFun("interior", []string{"Int", "Int"}, "Int")
+	h := 0
+	key := l.Heap
+	for _, ps := range l.Path {
+		key += fmt.Sprintf("/%d:%s", ps.Field, ps.Index)
+	}
+	for _, c := range key {
+		h = (h*31 + int(c)) % 1000003
+	}
+	ref := l.Ref
+	if l.Idx != "" {
+		ref = fmt.Sprintf("(interior %s %s)", l.Ref, l.Idx)
+	}
+	return fmt.Sprintf("(interior %s %d)", ref, h+1000)
+}
+
 func (fg *FG) refOf(v Val) string {
+	if v.Loc != nil && v.T == "" {
+		return fg.interiorRef(v.Loc)
+	}
 	if v.Ty != nil {
 		if _, isI := types.Unalias(v.Ty).Underlying().(*types.Interface); isI {
 			return fmt.Sprintf("(i.val %s)", v.T)
